@@ -201,7 +201,7 @@ _REUSE = (" Every case is also applied, in turn with the other cases of its (ope
 for _pid in ("C03", "C04", "C05", "C07", "C08", "C09", "C10"):
     CHECKS[_pid]["text"] += _REUSE + _OPS_TRACE
     CHECKS[_pid]["technique"] += "; operator instance re-use mode; trace validation of recorded random operator invocations against Trace_Ops.tla"
-for _pid in ("C06", "C11"):
+for _pid in ("C11",):
     CHECKS[_pid]["text"] += _REUSE
     CHECKS[_pid]["technique"] += "; operator instance re-use mode"
 _RUN_TRACE = (" In addition (code->spec): random DAG programs of 4..9 nodes are loaded and run 2..3 times with fresh inputs; a recording "
@@ -214,3 +214,16 @@ for _pid in ("C01", "C02"):
     CHECKS[_pid]["technique"] += "; node-level trace validation of recorded random programs against Trace_Run.tla"
 CHECKS["C15"]["text"] += (" Every input list is also put through the gate of ONE shared instance per operator, in a fixed order, so that "
                           "arity or type state kept between calls is exposed.")
+CHECKS["C06"]["text"] += _REUSE + (" Thorough tier, in addition (code->spec): random RNN/GRU/LSTM invocations with relu activations (sequence, batch, input, hidden "
+                                   "sizes 1..3, optional bias / initial states / peepholes, linear_before_reset, 1..3 declared outputs) are recorded from the real "
+                                   "operators and validated by TLC against Trace_Ops.tla.")
+CHECKS["C06"]["technique"] += "; operator instance re-use mode; (thorough) trace validation of recorded random recurrent invocations against Trace_Ops.tla"
+CHECKS["C14"]["text"] += _OPS_TRACE.replace("these operators", "the two helpers (shapes up to rank 5)")
+CHECKS["C14"]["technique"] += "; trace validation of recorded random helper invocations against Trace_Ops.tla"
+CHECKS["C16"]["text"] += (" The recorder also drives eight generated models (dilated and strided SAME convolutions, recurrent cells with weights, peepholes, "
+                          "Gather with scalar indices, per-sample reductions and shape operators) through the same batch compositions.")
+CHECKS["C12"]["text"] += (" In addition (code->spec): random TensorProtos (every element type and other data_type codes, both encodings, rank 0..4, "
+                          "zero and negative dims, payload lengths around the expected one, random bit patterns, wrong typed fields; 2 000 quick / 60 000 "
+                          "thorough) are decoded by the real onnx.TensorFromProto, logged as little-endian byte images and validated by TLC against "
+                          "Trace_Decode.tla, which recomputes Decode.DecodeAllowed for every event. Every value case is also decoded by 8 goroutines at once.")
+CHECKS["C12"]["technique"] += "; trace validation of recorded random decodes against Trace_Decode.tla; concurrent-decode mode"
